@@ -655,3 +655,40 @@ func I9(rc *RC) {
 		rc.S.Ok("I9", fi.Key, pos, "stored in slot "+counter+"-1, the block of "+offset)
 	}
 }
+
+// I10: Start rewinds. Start() is "Reset, then Next": on every path of every iterator's Start
+// method the receiver is Reset() before the first element is taken - an iterator that ran to
+// exhaustion (done set, offset wrapped back to 0) must restart as well as one that stopped
+// half way.
+func I10(rc *RC) {
+	rc.S.Declare("I10", "Start rewinds: every path of every iterator's Start() calls Reset() on the receiver before Next()", 2)
+	for _, fi := range rc.P.SortedFuncs() {
+		if fi.Pkg != rc.P.Root || fi.Decl.Body == nil || fi.Decl.Recv == nil || fi.Obj.Name() != "Start" || !strings.Contains(fi.Key, "Iterator") {
+			continue
+		}
+		pos := rc.P.Pos(fi.Decl.Pos())
+		_, tree := sCanon(rc, fi)
+		paths, ok := ir.EnumPaths(tree, 1000)
+		if !ok {
+			rc.S.Undec("I10", fi.Key, pos, "too many paths")
+			continue
+		}
+		var bad []string
+		for _, p := range paths {
+			reset := false
+			for _, st := range p.Steps {
+				if strings.Contains(st.Head, "$r.Reset()") {
+					reset = true
+				}
+				if strings.Contains(st.Head, "$r.Next()") && !reset {
+					bad = append(bad, fmt.Sprintf("on the path [%s] Next() is taken without Reset()", strings.Join(p.Guards, " && ")))
+				}
+			}
+		}
+		if len(bad) > 0 {
+			rc.S.Viol("I10", fi.Key, pos, strings.Join(uniq(bad), "; ")).Sig = firstWords(bad)
+		} else {
+			rc.S.Ok("I10", fi.Key, pos, "Reset() before Next() on every path")
+		}
+	}
+}
